@@ -349,6 +349,9 @@ class LP_Solver:
             all_vars = self.get_all_vars_at_rank(r)
             self.prob += (lpSum(all_vars) == obj)
             self.perform_optimisation(obj, Optimisation_type.MINIMISE)
+            # Stop at the first rank that is not solved to optimality.
+            if not LpStatus[self.prob.status] == self.model.OPTIMAL_PULP_STATUS:
+                return None
 
 
     def optimisation_greedy(self, additional_arguments):
@@ -366,6 +369,9 @@ class LP_Solver:
             all_vars = self.get_all_vars_at_rank(r)
             self.prob += (lpSum(all_vars) == obj)
             self.perform_optimisation(obj, Optimisation_type.MAXIMISE)
+            # Stop at the first rank that is not solved to optimality.
+            if not LpStatus[self.prob.status] == self.model.OPTIMAL_PULP_STATUS:
+                return None
 
 
     def optimisation_mincost(self, cost_multipliers):
